@@ -185,6 +185,9 @@ impl C12 {
         for k in 0..2 {
             docs.push(pool.generated(&Family::IccCycle, k));
         }
+        for k in 0..2 {
+            docs.push(pool.generated(&Family::SelfKid, k));
+        }
         // documents with an update history of their own (several sections, freed and reused numbers,
         // cross-reference streams that share an object number, stale object-stream members)
         for k in 0..(if tier == Tier::Quick { 8 } else { 48 }) {
